@@ -187,7 +187,7 @@ Proof. intros EQ [t [t' [E1 [E2 E3]]]]. exists t, t'. rewrite (add_missing_ext D
 Theorem typing_type_perm p D' : Permutation (p_types p) D' -> ProgOK teq p ->
   ProgOK teq {| p_procs := p_procs p; p_assumed := p_assumed p; p_funs := p_funs p; p_types := D' |}.
 Proof.
-  intros P [pe [[ET [EF [EP EA]]] [SD NF [Sg [SO [FO PO]]] NA TA NP DJ U1 U2 U3 AC]]].
+  intros P [pe [[ET [EF [EP EA]]] [SD NF [Sg [SO [FO PO]]] NA TA NP DJ U1 U2 U3 AC PN]]].
   rewrite ET in *.
   assert (ND : NoDup (map td_name (p_types p))).
   { rewrite sanity_typedefs_eq in SD. destruct (has_dup (map td_name (p_types p))) eqn:HD; [discriminate|].
